@@ -48,3 +48,10 @@ check(
     "Hypothesis property-based testing; scope-aware unresolved-name invariant (stdlib symtable)",
     "DESIGN.md §3 C02",
 )
+check(
+    "C07", "exploration",
+    "Generated-input search for the idempotence law: for every registered codemod, generated programs (several sites per file, nested contexts, aliases, layout variants; SAST result files reused unchanged) are run twice through the real CLI with identical argv; after run 2 the tree snapshot must equal the snapshot after run 1 and report 2 must carry no changeset.",
+    "Trusted: tree snapshots; both runs are complete CLI invocations (semgrep runs in both for rule-detected codemods).",
+    "Hypothesis property-based testing of run(run(P)) == run(P) with real CLI runs and snapshots",
+    "DESIGN.md §3 C07",
+)
